@@ -19,7 +19,10 @@ WORDS = ["tset", "wrold", "qzxvb", "mispeled", "gardden",
          # every letter an even number of times / anagram of another entry / one entry is two others written together
          "qzqz", "tuktuk", "zazaza", "tets", "tsetwrold",
          # misspellings whose suggestions depend on their capitalisation (the clauses use both forms)
-         "definately", "accomodate", "arguement", "tommorow", "langauge", "documnet"]
+         "definately", "accomodate", "arguement", "tommorow", "langauge", "documnet",
+         # another capitalisation of an entry above (the dictionary keeps one spelling per case-folded word: the reference
+         # server loads the same word list, so that known behaviour is on both sides of the comparison)
+         "Tset", "WROLD", "Qzqz"]
 MARKERS = ["zzqa", "zzqb", "zzqc", "zzqd", "zzqe", "zzqf", "zzqg", "zzqh"]
 
 
